@@ -1,15 +1,69 @@
 /-
-  Interleaving semantics: a configuration is the shared memory plus a list of threads;
-  an action lets one thread perform its next single atomic access.
+  Interleaving semantics: a configuration is the shared memory plus a list of threads, each
+  with a queue of calls; an action lets one thread perform its next single atomic access
+  (`Th.step`).  A call that needs no (further) access returns without consuming a step.
+
+  This file also contains the driver-side glue for the trace co-simulation: the harness runs
+  real threads under a deterministic scheduler, and replays the same schedule here, comparing
+  every access event and every call result.
 -/
 import LLFreeV.Model.Codec
 namespace LLFree
 
-/-- driver-side state of a co-simulation (filled in below) -/
-structure ConcSt where
-  dummy : Unit := ()
+/-- One thread: its current call (if any), the remaining calls, and whether it died. -/
+structure ThreadSt where
+  cur : Option (Th String) := none
+  queue : List (Prog String) := []
+  dead : Bool := false
 
-def concStep (_c : Cfg) (_m : Mem) (_cs : Option ConcSt) (_cmd : String) (_args : List String) :
-    Option (Mem × Option ConcSt × String) := none
+/-- A configuration of the interleaving semantics (the memory is kept by the caller). -/
+structure ConcSt where
+  threads : Array ThreadSt := #[]
+
+/-- Let thread `t` return from finished calls and load the next ones, until it is about to
+    perform an access (or has nothing left). Returns the rendered returns. -/
+def ThreadSt.advance (fuel : Nat) (ts : ThreadSt) (t : Nat) (acc : List String) : ThreadSt × List String :=
+  match fuel with
+  | 0 => (ts, acc.reverse)
+  | fuel+1 =>
+    if ts.dead then (ts, acc.reverse) else
+    match ts.cur with
+    | some (.at (.ret a)) => ThreadSt.advance fuel { ts with cur := none } t (s!"ret {t} {a}" :: acc)
+    | some (.at (.panic s)) => ({ ts with cur := none, dead := true }, (s!"ret {t} panic {s}" :: acc).reverse)
+    | some _ => (ts, acc.reverse)
+    | none =>
+      match ts.queue with
+      | [] => (ts, acc.reverse)
+      | p :: rest => ThreadSt.advance fuel { ts with cur := some (.at p), queue := rest } t acc
+
+def toHexC (n : Nat) : String := String.ofList (Nat.toDigits 16 n)
+
+def kindName : Kind → String
+  | .row => "row" | .huge => "huge" | .tree => "tree" | .slot => "slot"
+
+/-- render an access like the harness does: narrow accesses report the accessed part -/
+def Access.render (t : Nat) (a : Access) : String :=
+  let o := Kind.pack a.kind a.old
+  let n := Kind.pack a.kind a.new
+  let part (v : Nat) : Nat := if a.w < 64 then (v / 2 ^ a.sh) % 2 ^ a.w else v
+  s!"ev {t} {a.op} {kindName a.kind} {a.idx} {a.sh} {a.w} {toHexC (part o)} {toHexC (part n)} {if a.ok then 1 else 0}"
+
+/-- One scheduling step of thread `t`. -/
+def ConcSt.step (cs : ConcSt) (m : Mem) (t : Nat) : Mem × ConcSt × String :=
+  match cs.threads[t]? with
+  | none => (m, cs, "bad-thread")
+  | some ts =>
+    match ts.cur with
+    | none => (m, cs, "idle")
+    | some th =>
+      match th.step m with
+      | .done _ => (m, cs, "idle")
+      | .dead s =>
+        let ts' := { ts with cur := none, dead := true }
+        (m, { cs with threads := cs.threads.setIfInBounds t ts' }, s!"ret {t} panic {s}")
+      | .step th' m' a =>
+        let (ts', rets) := ThreadSt.advance 64 { ts with cur := some th' } t []
+        (m', { cs with threads := cs.threads.setIfInBounds t ts' },
+          " | ".intercalate (a.render t :: rets))
 
 end LLFree
